@@ -1,27 +1,37 @@
 pub mod channel { pub mod mpsc {
-    use std::cell::UnsafeCell;
-        use std::sync::Arc;
+    // model of futures 0.3 bounded mpsc: FIFO queue, capacity = buffer + one guaranteed slot per sender: a sender that pushes
+    // the queue to / past `buffer` is parked and its next try_send fails with Full until the receiver has dequeued a message and
+    // unparked it (senders are unparked in parking order, one per dequeued message). A fresh clone is never parked.
+    use std::cell::{Cell, UnsafeCell};
+    use std::sync::Arc;
     use std::fmt;
-    pub struct Inner<T> { pub q: UnsafeCell<Vec<T>>, pub cap: usize, pub closed: UnsafeCell<bool> }
+    pub struct Task { pub parked: Cell<bool> }
+    unsafe impl Sync for Task {} unsafe impl Send for Task {}
+    pub struct Inner<T> { pub q: UnsafeCell<Vec<T>>, pub buffer: usize, pub closed: UnsafeCell<bool>, pub parked: UnsafeCell<Vec<Arc<Task>>> }
     unsafe impl<T> Sync for Inner<T> {}
     unsafe impl<T> Send for Inner<T> {}
-    pub struct Sender<T> { pub inner: Arc<Inner<T>> }
+    pub struct Sender<T> { pub inner: Arc<Inner<T>>, pub task: Arc<Task>, pub maybe_parked: Cell<bool> }
+    unsafe impl<T> Sync for Sender<T> {}
     pub struct Receiver<T> { pub inner: Arc<Inner<T>> }
-    impl<T> Clone for Sender<T> { fn clone(&self) -> Self { Sender { inner: self.inner.clone() } } }
+    impl<T> Clone for Sender<T> { fn clone(&self) -> Self { Sender { inner: self.inner.clone(), task: Arc::new(Task { parked: Cell::new(false) }), maybe_parked: Cell::new(false) } } }
     #[derive(Debug)] pub struct TrySendError { pub full: bool }
-    impl fmt::Display for TrySendError { fn fmt(&self, f: &mut fmt::Formatter<'_>) -> fmt::Result { write!(f, "send failed") } }
+    impl TrySendError { pub fn is_full(&self) -> bool { self.full } pub fn is_disconnected(&self) -> bool { !self.full } }
+    impl fmt::Display for TrySendError { fn fmt(&self, f: &mut fmt::Formatter<'_>) -> fmt::Result { if self.full { write!(f, "send failed because channel is full") } else { write!(f, "send failed because receiver is gone") } } }
     #[derive(Debug)] pub struct TryRecvError;
-    impl fmt::Display for TryRecvError { fn fmt(&self, f: &mut fmt::Formatter<'_>) -> fmt::Result { write!(f, "channel empty") } }
+    impl fmt::Display for TryRecvError { fn fmt(&self, f: &mut fmt::Formatter<'_>) -> fmt::Result { write!(f, "receiver channel is empty") } }
     pub fn channel<T>(buffer: usize) -> (Sender<T>, Receiver<T>) {
-        let inner = Arc::new(Inner { q: UnsafeCell::new(Vec::new()), cap: buffer + 1, closed: UnsafeCell::new(false) });
-        (Sender { inner: inner.clone() }, Receiver { inner })
+        let inner = Arc::new(Inner { q: UnsafeCell::new(Vec::new()), buffer, closed: UnsafeCell::new(false), parked: UnsafeCell::new(Vec::new()) });
+        (Sender { inner: inner.clone(), task: Arc::new(Task { parked: Cell::new(false) }), maybe_parked: Cell::new(false) }, Receiver { inner })
     }
     impl<T> Sender<T> {
         pub fn try_send(&mut self, msg: T) -> Result<(), TrySendError> {
-            let q = unsafe { &mut *self.inner.q.get() };
+            if self.maybe_parked.get() { if self.task.parked.get() { return Err(TrySendError { full: true }); } self.maybe_parked.set(false); }
             if unsafe { *self.inner.closed.get() } { return Err(TrySendError { full: false }); }
-            if q.len() >= self.inner.cap { return Err(TrySendError { full: true }); }
-            q.push(msg); Ok(())
+            let q = unsafe { &mut *self.inner.q.get() };
+            let park_self = q.len() >= self.inner.buffer;
+            q.push(msg);
+            if park_self { self.task.parked.set(true); unsafe { (&mut *self.inner.parked.get()).push(self.task.clone()); } self.maybe_parked.set(true); }
+            Ok(())
         }
         pub fn same_receiver(&self, other: &Self) -> bool { Arc::ptr_eq(&self.inner, &other.inner) }
         /// harness-only: number of queued messages
@@ -32,9 +42,14 @@ pub mod channel { pub mod mpsc {
     impl<T> Receiver<T> {
         pub fn try_next(&mut self) -> Result<Option<T>, TryRecvError> {
             let q = unsafe { &mut *self.inner.q.get() };
-            if q.len() == 0 { Err(TryRecvError) } else { Ok(Some(q.remove(0))) }
+            if q.len() == 0 { return Err(TryRecvError); }
+            let m = q.remove(0);
+            let p = unsafe { &mut *self.inner.parked.get() };
+            if p.len() > 0 { let t = p.remove(0); t.parked.set(false); }
+            Ok(Some(m))
         }
         pub fn len(&self) -> usize { unsafe { (&*self.inner.q.get()).len() } }
+        pub fn close(&mut self) { unsafe { *self.inner.closed.get() = true; } }
     }
     impl<T> Drop for Receiver<T> { fn drop(&mut self) { unsafe { *self.inner.closed.get() = true; } } }
 } }
